@@ -199,6 +199,16 @@ fn run_group_shares(cx: &mut CaseCx, _case: &Value) {
   for n in 0..s1.len() {
     lines.push(BASE64_STANDARD.encode(&s1[..n]));
   }
+  // a multi-byte character (2, 3 and 4 bytes in UTF-8) at EVERY offset 0..=12 of an otherwise base64-looking line,
+  // and inside a valid share line
+  let mut mb: Vec<String> = vec![];
+  for ch in ["é", "€", "😀"] {
+    for k in 0..=12usize {
+      mb.push(format!("{}{}{}", "A".repeat(k), ch, "AAAA"));
+    }
+    let b = BASE64_STANDARD.encode(&s1);
+    mb.push(format!("{}{}{}", &b[..8], ch, &b[8..]));
+  }
   let epochs = ["", "t", "é", "a\nb"];
   let call = |cx: &mut CaseCx, joined: &str, ep: &str| {
     cx.eval();
@@ -209,6 +219,14 @@ fn run_group_shares(cx: &mut CaseCx, _case: &Value) {
       Ok(None) => cx.count("grouped_none", 1),
     }
   };
+  let valid1 = BASE64_STANDARD.encode(&s1);
+  for l in &mb {
+    for ep in ["t", "é"] {
+      call(cx, l, ep);
+      call(cx, &format!("{}\n{}", l, valid1), ep);
+      call(cx, &format!("{}\n{}", valid1, l), ep);
+    }
+  }
   for ep in epochs {
     call(cx, "", ep);
     call(cx, "\n", ep);
@@ -399,6 +417,33 @@ fn run_verify(cx: &mut CaseCx, _case: &Value) {
       pks.push(("no tags".into(), k));
     }
   }
+  // decodable but DEGENERATE keys: the entry of a tag is the negation of the base point (the per-tag key the
+  // verifier computes, base + entry, is then the neutral element), equals the base point, or is the neutral
+  // element itself; the base point is the neutral element
+  {
+    use curve25519_dalek::ristretto::CompressedRistretto;
+    let ident = RistrettoPoint::identity().compress().to_bytes();
+    let base = CompressedRistretto(pkb[..32].try_into().unwrap()).decompress();
+    for slot in 0..2usize {
+      let at = 32 + 8 + slot * 33 + 1;
+      let mut variants: Vec<(String, [u8; 32])> = vec![(format!("neutral element as tag point in slot {}", slot), ident), (format!("base point as tag point in slot {}", slot), pkb[..32].try_into().unwrap())];
+      if let Some(bp) = base {
+        variants.push((format!("negated base point as tag point in slot {} (entries cancel out)", slot), (-bp).compress().to_bytes()));
+      }
+      for (name, val) in variants {
+        let mut b = pkb.clone();
+        b[at..at + 32].copy_from_slice(&val);
+        if let Ok(k) = pp::ServerPublicKey::load_from_bincode(&b) {
+          pks.push((name, k));
+        }
+      }
+    }
+    let mut b = pkb.clone();
+    b[..32].copy_from_slice(&ident);
+    if let Ok(k) = pp::ServerPublicKey::load_from_bincode(&b) {
+      pks.push(("neutral element as base point".into(), k));
+    }
+  }
   cx.count("public_key_variants", pks.len() as u64);
   let mut points: Vec<(String, [u8; 32], bool)> = vec![("honest".into(), [0u8; 32], true), ("identity".into(), RistrettoPoint::identity().compress().to_bytes(), true)];
   for (i, u) in und.iter().enumerate() {
@@ -417,7 +462,7 @@ fn run_verify(cx: &mut CaseCx, _case: &Value) {
             cx.eval();
             cx.nontrivial(fnv_str(&format!("{}|{}|{}|{}|{}", pkn, on, inn, prn, md)));
             // a key whose only damaged point belongs to ANOTHER tag is as good as the honest key for md = 1
-            let pk_honest_for_md1 = pkn == "honest" || pkn.ends_with("in slot 0");
+            let pk_honest_for_md1 = pkn == "honest" || pkn.ends_with("in slot 0") || pkn.contains("in slot 0 ");
             let all_honest = pk_honest_for_md1 && on == "honest" && inn == "honest" && *prn == "honest" && md == 1;
             match guard(|| pp::Client::verify(k, &in_pt, &ev, md)) {
               Err(p) => cx.viol("C09/panic/Client::verify", format!("Client::verify panicked: {}", p), json!({"entry": "Client::verify", "public_key": pkn, "output": on, "input": inn, "proof": prn, "md": md})),
